@@ -383,7 +383,9 @@ class IndentationFitter(object):
         `self.fit_range` before the actual fitting.
         """
         model_key = self.fp["model_key"]
-        params_initial = self.fp["params_initial"]
+        # work on a copy: the caller's initial parameters stay in measured
+        # units (otherwise each pass would scale the contact point again)
+        params_initial = copy.deepcopy(self.fp["params_initial"])
         # modify contact point with gcf_k
         cpi = params_initial["contact_point"].value
         params_initial["contact_point"].set(value=cpi * self.fp["gcf_k"])
